@@ -38,6 +38,15 @@ ASSUMPTIONS = [
     "or computed and then a fix moved back / the first fix dropped (out of date), or its speed estimated; the fixes "
     "themselves are always those of the case.  With via='algo' (interpolation.resample called directly) the feature "
     "table is not demanded to be reset",
+    "coordinate type (case['ints']): floats, or Python ints wherever the value is integer-valued (gen.make_track(ints=True)); "
+    "the oracle works on the same numbers.  spatial_float also draws tracks on the integer grid with oblique legs, so that "
+    "every coordinate is an int while the leg lengths are irrational",
+    "reference track re-use (temporal_instants, case['refpre']): the reference Track OBJECT of the judged call may have served "
+    "1..2 earlier temporal resampling calls (linear, thin-spline or B-spline, on other track objects built from the case "
+    "data, possibly shifted in time), its timestamps being set in place (obs.timestamp assigned or setObs, same number of "
+    "fixes) before each use and before the judged call.  Every linear call of the history is judged in full against the "
+    "reference's timestamps at the time of that call; the spline calls are not judged (not the subject of the property) and "
+    "may fail - they only must not affect the later calls",
     "spatial timestamps: +-1 ms + 5e-3 ms (float seconds ~1.6e9 weighted by two rounded weights) + time slope x abscissa uncertainty",
 ]
 
@@ -79,15 +88,16 @@ def _build(case):
     def feats(n):
         return {"f%d" % c: [10.0 * c + i for i in range(n)] for c in range(case.get("nf", 0))}
 
+    ints = bool(case.get("ints"))
     if pre in ("abscurv-stale-dropped-first-gt", "abscurv-stale-dropped-first-remove") and T[0] >= 1000:
-        tr = gen.make_track([(pts[0][0] + 3.0, pts[0][1] - 4.0, pts[0][2])] + pts, [T[0] - 1000] + T, feats(len(T) + 1))
+        tr = gen.make_track([(pts[0][0] + 3.0, pts[0][1] - 4.0, pts[0][2])] + pts, [T[0] - 1000] + T, feats(len(T) + 1), ints=ints)
         computeAbsCurv(tr)
         if pre.endswith("gt"):
             tr = tr > 1
         else:
             tr.removeObsList([0])
     else:
-        tr = gen.make_track(pts, T, feats(len(T)))
+        tr = gen.make_track(pts, T, feats(len(T)), ints=ints)
         if pre == "abscurv-fresh":
             computeAbsCurv(tr)
         elif pre == "abscurv-stale-moved":
@@ -96,8 +106,8 @@ def _build(case):
             pos.setX(pts[k][0] + 2.5)
             pos.setY(pts[k][1] + 6.0)
             computeAbsCurv(tr)
-            pos.setX(pts[k][0])
-            pos.setY(pts[k][1])
+            pos.setX(gen.as_int_if_integral(pts[k][0]) if ints else pts[k][0])
+            pos.setY(gen.as_int_if_integral(pts[k][1]) if ints else pts[k][1])
         elif pre == "speed":
             tr.estimate_speed()
     if tr.size() != len(pts):
@@ -219,7 +229,25 @@ def _cls_track(case, T):
     if any(pts[i][:2] == pts[i + 1][:2] for i in range(len(pts) - 1)):
         cls.append("repeated-position")
     cls.append("dyadic-times" if _dyadic(T) else "ms-times")
+    cls.append(_cls_ints(case))
     return cls
+
+
+def _cls_ints(case):
+    integral = all(float(c) == int(c) for p in case["pts"] for c in p[:2])
+    if case.get("ints"):
+        return "ints:all-xy-handed-over-as-int" if integral else "ints:some-xy-not-integer-valued"
+    return "floats:integer-valued-xy" if integral else "floats"
+
+
+def _set_ref_stamps(ref, t0, offs, how):
+    """in-place change of the timestamps of a reference track (number of fixes unchanged)"""
+    for i, o in enumerate(offs):
+        ts = gen.obstime_of_ms(t0 + o)
+        if how == "setobs":
+            ref.setObs(i, Obs(ENUCoords(-float(i), 7.0, 1.0), ts))
+        else:
+            ref.getObs(i).timestamp = ts
 
 
 def _apply_temporal(tr, arg, via):
@@ -278,12 +306,55 @@ def body_temporal_instants(case):
     if any(T[0] + o < 0 or T[0] + o > gen.MAX_MS for o in offs):
         return {"undef": True}
     stamps = [gen.obstime_of_ms(T[0] + o) for o in offs]
+    hist_cls = []
     if kind == "track":
         if not offs:
             return {"undef": True}
+        refpre = case.get("refpre") or []
+        for stp in refpre:
+            so = stp["offs"]
+            if len(so) != len(offs) or so != sorted(so) or any(not isinstance(o, int) for o in so):
+                return {"undef": True}
+            if any(T[0] + o < 0 or T[0] + o > gen.MAX_MS for o in so):
+                return {"undef": True}
+            if T[0] + stp.get("tshift", 0) < 0 or T[-1] + stp.get("tshift", 0) > gen.MAX_MS:
+                return {"undef": True}
+        first = refpre[0]["offs"] if refpre else offs
         arg = Track([], 2)
-        for i, s in enumerate(stamps):
-            arg.addObs(Obs(ENUCoords(-float(i), 7.0, 1.0), s))
+        for i, o in enumerate(first):
+            arg.addObs(Obs(ENUCoords(-float(i), 7.0, 1.0), gen.obstime_of_ms(T[0] + o)))
+        # earlier uses of the SAME reference Track object: its stamps are set in place (same number of fixes), then it
+        # serves another resampling call (another track object, possibly another algorithm).  Linear calls are judged.
+        for k, stp in enumerate(refpre):
+            _set_ref_stamps(arg, T[0], stp["offs"], stp.get("set", "assign"))
+            sh = stp.get("tshift", 0)
+            c2 = dict(case, t0=case["t0"] + sh, pre=None)
+            tr2, T2 = _build(c2)
+            algo = stp["algo"]
+            what2 = "earlier call %d of %d on the same reference Track object (%s, reference offsets %s ms, track shifted by %d ms)" % (
+                k + 1, len(refpre), algo, stp["offs"][:20], sh)
+            if algo == "linear":
+                res2 = _apply_temporal(tr2, arg, stp.get("via", "resample"))
+                _judge_temporal(c2, res2, T2, _listed_expected(T2, [o - sh for o in stp["offs"]]), what2)
+            else:
+                try:          # spline resamplers are not the subject of the property: they only have to leave the reference alone
+                    code = interp.ALGO_THIN_SPLINES if algo == "thin" else interp.ALGO_B_SPLINES
+                    if stp.get("via") == "algo":
+                        interp.resample(tr2, arg, code, interp.MODE_TEMPORAL)
+                    else:
+                        tr2.resample(arg, algo=code, mode=interp.MODE_TEMPORAL)
+                except (Exception, SystemExit):
+                    hist_cls.append("ref:earlier-spline-call-raised")
+            hist_cls.append("ref:used-before-by-" + algo)
+        if refpre:
+            if refpre[-1]["offs"] != offs:
+                hist_cls.append("ref:stamps-changed-in-place-since-last-use")
+            _set_ref_stamps(arg, T[0], offs, case.get("refset", "assign"))
+            hist_cls.append("ref:reused")
+        else:
+            hist_cls.append("ref:fresh")
+        if arg.size() != len(offs):
+            raise HarnessError("reference track size")
     else:
         if via == "floordiv":
             return {"undef": True}
@@ -295,7 +366,7 @@ def body_temporal_instants(case):
     if via != "algo":
         _check_no_features(res, got, "features-not-reset")
     D = T[-1] - T[0]
-    cls = _cls_track(case, T) + ["via-" + via, "arg-" + kind]
+    cls = _cls_track(case, T) + ["via-" + via, "arg-" + kind] + sorted(set(hist_cls))
     if D in offs:
         cls.append("instant=tfin")
     if 0 in offs:
@@ -453,6 +524,11 @@ def _cls_spatial(case, lens, legs, got, on_vertex):
         cls.append("point-on-a-fix")
     if len(got) == 1:
         cls.append("only-first-fix")
+    cls.append(_cls_ints(case))
+    if any(l != int(l) for l in lens):
+        cls.append("non-integer-leg-length")
+        if case.get("ints") and all(float(c) == int(c) for p in case["pts"] for c in p[:2]):
+            cls.append("ints:all-xy-int+non-integer-leg-length")
     return cls, len(posl) > 1 and len(legs) >= 2
 
 
@@ -559,7 +635,7 @@ def _points(n):
                     pts.append([x, y, z])
             return pts
         return st.lists(st.integers(lo, hi), min_size=4 * n, max_size=4 * n).map(post)
-    return st.one_of(mk(-256, 256, 0.25), mk(-10 ** 9, 10 ** 9, 1e-5))
+    return st.one_of(mk(-256, 256, 0.25), mk(-10 ** 9, 10 ** 9, 1e-5), mk(-300, 300, 1.0))
 
 
 @st.composite
@@ -584,7 +660,7 @@ _T0S = st.one_of(st.integers(86400, 4102444800 - 11 * 86400).map(lambda s: s * 1
 def _ttrack(draw):
     n = draw(_NS)
     return {"t0": draw(_t0()), "dt": draw(_dts(n)), "pts": draw(_points(n)), "nf": draw(st.integers(0, 1)),
-            "pre": draw(st.sampled_from(PRES))}
+            "pre": draw(st.sampled_from(PRES)), "ints": draw(st.booleans())}
 
 
 @st.composite
@@ -657,6 +733,30 @@ def strat_temporal_instants_(draw):
     if case["via"] == "algo":
         case["nf"] = 0
         case["pre"] = None
+    if case["kind"] == "track" and draw(st.integers(0, 9)) < 7:
+        # the reference Track object has been used before (1..2 earlier resampling calls on other track objects), with
+        # the same stamps, with all stamps shifted, or with other stamps (same number of fixes), changed in place since
+        offs, m = case["offs"], len(case["offs"])
+        lo = -min(case["t0"], 5000)
+        D = sum(case["dt"])
+        pre = []
+        for _ in range(draw(st.sampled_from([1, 1, 1, 2]))):
+            how = draw(st.sampled_from(["same", "same", "shift", "shift", "redraw"]))
+            if how == "same":
+                so = list(offs)
+            elif how == "shift":
+                c = draw(st.sampled_from([-3000, -1000, -125, -2, 2, 125, 250, 1000, 3000, 10000]))
+                so = [max(o + c, lo) for o in offs]
+            else:
+                so = sorted(draw(st.lists(st.integers(lo, D + 5000), min_size=m, max_size=m)))
+            sh = draw(st.sampled_from([0, 0, 0, 1000, -1000, 125, 7]))
+            if case["t0"] + sh < 0:
+                sh = 0
+            pre.append({"offs": so, "algo": draw(st.sampled_from(["linear", "linear", "thin", "thin", "bspline"])),
+                        "tshift": sh, "via": draw(st.sampled_from(["resample", "floordiv", "algo"])),
+                        "set": draw(st.sampled_from(["assign", "setobs"]))})
+        case["refpre"] = pre
+        case["refset"] = draw(st.sampled_from(["assign", "assign", "setobs"]))
     return case
 
 
@@ -675,12 +775,15 @@ AXES = [(1, 0), (0, 1), (-1, 0), (0, -1)]
 @st.composite
 def strat_spatial_exact_(draw):
     n = draw(_NS)
+    unit = draw(st.sampled_from([0.25, 0.25, 1.0]))    # 1.0: every coordinate is integer-valued
     x, y = draw(_coord_lattice()), draw(_coord_lattice())
+    if unit == 1.0:
+        x, y = float(int(x)), float(int(y))
     zc = st.one_of(st.just(0.0), _coord_lattice(), _coord_float())
     pts = [[x, y, draw(zc)]]
     regular = draw(st.integers(0, 4)) == 0
     a0 = draw(st.integers(1, 40))
-    ticks = 0                                        # L in units of 1/4 m
+    ticks = 0                                        # L in units
     for _ in range(n - 1):
         kind = draw(st.sampled_from(["axis", "axis", "345", "345", "zero"]))
         if kind == "zero":
@@ -688,16 +791,16 @@ def strat_spatial_exact_(draw):
         elif kind == "axis":
             a = a0 if regular else draw(st.integers(1, 40))
             ux, uy = draw(st.sampled_from(AXES))
-            dx, dy = ux * a * 0.25, uy * a * 0.25
+            dx, dy = ux * a * unit, uy * a * unit
             ticks += a
         else:
             u = draw(st.integers(1, 8))
             ux, uy = draw(st.sampled_from(LEGS_345))
-            dx, dy = ux * u * 0.25, uy * u * 0.25
+            dx, dy = ux * u * unit, uy * u * unit
             ticks += 5 * u
         x, y = x + dx, y + dy
         pts.append([x, y, draw(zc)])
-    L8 = 2 * ticks                                   # L in units of 1/8 m
+    L8 = int(ticks * unit * 8)                       # L in units of 1/8 m
     kind = draw(st.sampled_from(["divisor", "divisor", "eighths", "first-leg", "big", "equal"]))
     if L8 == 0:
         d8 = draw(st.integers(1, 40))
@@ -718,12 +821,46 @@ def strat_spatial_exact_(draw):
     ds = d8 // 8 if (d8 % 8 == 0 and draw(st.booleans())) else d8 / 8.0
     via = draw(st.sampled_from(["resample", "resample", "resample-default", "resample-kw", "algo"]))
     return {"t0": draw(_t0()), "dt": draw(_dts(n)), "pts": pts, "nf": 0 if via == "algo" else draw(st.integers(0, 1)),
-            "ds": ds, "via": via, "pre": None if via == "algo" else draw(st.sampled_from(PRES))}
+            "ds": ds, "via": via, "pre": None if via == "algo" else draw(st.sampled_from(PRES)), "ints": draw(st.booleans())}
+
+
+OBLIQUE = [(1, 1), (1, -1), (2, 1), (-1, 2), (1, 3), (-3, 1), (2, -3), (5, 2), (-2, -5), (1, 0), (0, 1), (3, 4), (-7, 1)]
+
+
+@st.composite
+def _grid_points(draw, n):
+    """integer coordinates, legs in oblique directions: leg lengths are not integers although every coordinate is"""
+    v = draw(st.lists(st.integers(0, 10 ** 6), min_size=3 * n, max_size=3 * n))
+    x, y = v[0] % 2001 - 1000, v[1] % 2001 - 1000
+    pts = [[float(x), float(y), float(v[2] % 7)]]
+    for i in range(1, n):
+        flag, k, zk = v[3 * i] % 12, v[3 * i + 1], v[3 * i + 2]
+        z = float(zk % 50) if flag % 2 else zk % 1000 * 0.125
+        if flag >= 1:
+            ux, uy = OBLIQUE[k % len(OBLIQUE)]
+            m = 1 + (k // 16) % 12
+            x, y = x + ux * m, y + uy * m
+        pts.append([float(x), float(y), z])
+    return pts
 
 
 @st.composite
 def strat_spatial_float_(draw):
     n = draw(_NS)
+    if draw(st.integers(0, 2)) == 0:
+        pts = draw(_grid_points(n))
+        L = sum(math.hypot(pts[i + 1][0] - pts[i][0], pts[i + 1][1] - pts[i][1]) for i in range(n - 1))
+        if L > 0:
+            ds = draw(st.one_of(st.floats(L / 149.3, 1.47 * L), st.floats(L / 149.3, L / 2.13),
+                                st.sampled_from([1, 2, 3, 5, 7, 10, 0.5, 2.5, 12.5, 7.0])))
+            if L / ds > 150:
+                ds = L / 149.5
+        else:
+            ds = draw(st.floats(0.01, 10.0))
+        via = draw(st.sampled_from(["resample", "resample", "resample-default", "resample-kw", "algo"]))
+        return {"t0": draw(_t0()), "dt": draw(_dts(n)), "pts": pts, "nf": 0 if via == "algo" else draw(st.integers(0, 1)),
+                "ds": ds, "via": via, "pre": None if via == "algo" else draw(st.sampled_from(PRES)),
+                "ints": draw(st.sampled_from([True, True, False]))}
     v = draw(st.lists(st.integers(0, 10 ** 9), min_size=4 * n, max_size=4 * n))
     x, y = (v[0] - 5 * 10 ** 8) * 1e-5, (v[1] - 5 * 10 ** 8) * 1e-5
     pts = [[x, y, 0.0 if v[2] % 3 == 0 else (v[3] - 5 * 10 ** 8) * 1e-5]]
@@ -746,7 +883,7 @@ def strat_spatial_float_(draw):
         ds = draw(st.floats(0.01, 10.0))
     via = draw(st.sampled_from(["resample", "resample", "resample-default", "resample-kw", "algo"]))
     return {"t0": draw(_t0()), "dt": draw(_dts(n)), "pts": pts, "nf": 0 if via == "algo" else draw(st.integers(0, 1)),
-            "ds": ds, "via": via, "pre": None if via == "algo" else draw(st.sampled_from(PRES))}
+            "ds": ds, "via": via, "pre": None if via == "algo" else draw(st.sampled_from(PRES)), "ints": draw(st.booleans())}
 
 
 def strat_temporal_step():
@@ -772,9 +909,13 @@ def strat_spatial_float():
 RULE = ("Hypothesis. Tracks: 2..10 fixes, time increments regular / multiples of 1/8 s / arbitrary ms, positions on a 1/4 lattice or floats "
         "in +-1e4, one fix in six repeats the previous position. temporal_step: steps that divide the duration, other multiples of 1/8 s, "
         "decimal floats, duration/k, steps >= duration; int and float. temporal_instants: sorted lists / reference tracks of instants inside, "
-        "on fixes, on tini and tfin, outside, duplicated. temporal_npts: npts=, factor=, **. spatial_exact: axis-parallel and 3-4-5 legs on "
+        "on fixes, on tini and tfin, outside, duplicated; 7 in 10 reference tracks have been used before by 1..2 other resampling "
+        "calls (linear / thin spline / B-spline, via resample / // / interpolation.resample) with the same, shifted or other stamps "
+        "set in place. temporal_npts: npts=, factor=, **. spatial_exact: axis-parallel and 3-4-5 legs on "
         "the 1/4 lattice, ds in eighths (divisors of L, the first leg's length, ds = L, ds > L). spatial_float: float legs of 0.01..100 m in "
-        "any direction, float ds. Non-trivial: at least two different time increments (temporal) or positive leg lengths (spatial) and "
+        "any direction, float ds; one third on the integer grid (oblique integer legs x 1..12, ds float or small integers / halves). "
+        "Every generator draws 'ints' (integer-valued coordinates handed over as Python ints); positions are on a 1/4 lattice, "
+        "an integer lattice or floats. Non-trivial: at least two different time increments (temporal) or positive leg lengths (spatial) and "
         "output points in at least two different legs. Distinct = hash of the case.")
 
 SUBCHECKS = [
